@@ -417,6 +417,36 @@ B('s_count_overwritten_by_describe', ['C19'], 'R19.b',
   (STATS, "        desc_dict['count'] = hits.total_count  # need to account for reservoir count\n", ''),
   (STATS, '        cur.update(desc_dict)', "        cur['count'] = hits.total_count\n        cur.update(desc_dict)"))
 
+# ------------------------------------------------------------------ robustness twins: whole-file re-generation and renames
+ALLP = ['C%02d' % i for i in range(1, 21)]
+T('t_unparse_sinter', ['C01', 'C02', 'C03', 'C04', 'C11', 'C12'], (S, '__UNPARSE__', ''))
+T('t_unparse_core', ['C01', 'C02', 'C03', 'C04', 'C12', 'C15'], (C, '__UNPARSE__', ''))
+T('t_unparse_route', ['C01', 'C02', 'C03', 'C04', 'C05', 'C06', 'C07', 'C08', 'C10', 'C11', 'C12'], (R, '__UNPARSE__', ''))
+T('t_unparse_application', ['C01', 'C02', 'C04', 'C06', 'C07', 'C08', 'C09', 'C10', 'C11', 'C12', 'C13'], (A, '__UNPARSE__', ''))
+T('t_unparse_errors', ['C06', 'C08', 'C09', 'C12', 'C17'], (E, '__UNPARSE__', ''))
+T('t_unparse_static', ['C13', 'C14'], (ST, '__UNPARSE__', ''))
+T('t_unparse_mw', ['C15', 'C16', 'C19', 'C12', 'C18'], (GZ, '__UNPARSE__', ''), (STATS, '__UNPARSE__', ''), (CK, '__UNPARSE__', ''), (CC, '__UNPARSE__', ''), (PF, '__UNPARSE__', ''))
+T('t_unparse_render_flaw_meta', ['C17', 'C20', 'C18', 'C09'], (RS, '__UNPARSE__', ''), (FL, '__UNPARSE__', ''), (META, '__UNPARSE__', ''), (CE, '__UNPARSE__', ''))
+T('t_rename_ret_in_dispatch', ['C06', 'C07', 'C08', 'C12', 'C02'], (A, r're:\bret\b', 'result'))
+T('t_rename_dispatch_state', ['C06', 'C07', 'C08', 'C12', 'C02', 'C04'], (A, r're:\bdispatch_state\b', 'dstate'))
+T('t_rename_route_loop_var', ['C06', 'C07', 'C08', 'C12', 'C02'], (A, r're:(?<![.\w\'"])route\b', 'rt_'))
+T('t_rename_chain_locals', ['C01', 'C02', 'C03'], (S, r're:\bprovided_sofar\b', 'seen'), (S, r're:\boptional_sofar\b', 'maybe'))
+T('t_rename_mw_chain_locals', ['C01', 'C02', 'C03', 'C04'], (C, r're:\bep_avail\b', 'endpoint_available'), (C, r're:\brn_unres\b', 'render_missing'))
+T('t_logging_added', ['C06', 'C07', 'C08', 'C12', 'C13'],
+  (A, '        request = self.request_type(environ)\n', '        request = self.request_type(environ)\n        log = getattr(self, "_log", None)\n'),
+  (A, '        dispatch_state = DispatchState()\n', '        dispatch_state = DispatchState()\n        started = None\n'))
+T('t_docstrings_added', ['C01', 'C02', 'C03', 'C05', 'C10', 'C11'],
+  (S, 'def make_chain(funcs, provides, final_func, preprovided, inner_name):\n', 'def make_chain(funcs, provides, final_func, preprovided, inner_name):\n    """Build one chain."""\n'),
+  (R, 'def build_converter(converter, optional=False, multi=False):\n', 'def build_converter(converter, optional=False, multi=False):\n    """Wrap a converter."""\n'))
+T('t_guard_as_positive_if', ['C14'],
+  (ST, "        if rel_path.startswith('/'):\n            raise ValueError('expected relative path, not %r' % path)\n", "        if not rel_path.startswith('/'):\n            pass\n        else:\n            raise ValueError('expected relative path, not %r' % path)\n"))
+T('t_reservoir_early_return_swapped', ['C19'],
+  (STATS, '        if len(self._data) < self._cap:\n            # not (yet, or after an enlarging resize, no longer) full\n            self._data.append(val)\n            return\n\n        idx = fast_randint(0, self._total_count)\n        if idx < self._cap:\n            self._data[idx] = val\n        return',
+          '        if len(self._data) >= self._cap:\n            idx = fast_randint(0, self._total_count)\n            if idx < self._cap:\n                self._data[idx] = val\n        else:\n            self._data.append(val)\n        return'))
+T('t_cookie_guard_in_middleware', ['C16'],
+  (CK, "        try:\n            return super(cls, JSONCookie).unserialize(string, secret_key)\n        except Exception:\n            # malformed client data (e.g., a signature that is not\n            # valid base64): treat like any other invalid cookie\n            return cls((), secret_key, False)",
+       "        try:\n            return super(cls, JSONCookie).unserialize(string, secret_key)\n        except ValueError:\n            return cls(None, secret_key, False)"))
+
 # ------------------------------------------------------------------ C14
 B('c14_join_raw_path', ['C14'], 'R14.a', (ST, 'full_path = pjoin(sr, rel_path)', 'full_path = pjoin(sr, path)'))
 B('c14_drop_pardir_test', ['C14'], 'R14.a',
